@@ -55,6 +55,17 @@ impl Exp {
     pub fn bw<'gc>(&mut self, mc: &Mutation<'gc>) -> Box<GcWeak<'gc, u32>> {
         Box::new(self.w(mc))
     }
+    /// a strong pointer to a value of any collectable type (self-referential shapes)
+    pub fn g<'gc, T: Collect<'gc> + 'gc>(&mut self, mc: &Mutation<'gc>, v: T) -> Gc<'gc, T> {
+        let g = Gc::new(mc, v);
+        self.strong.push(Gc::as_ptr(g) as usize);
+        g
+    }
+    pub fn gw<'gc, T: Collect<'gc> + 'gc>(&mut self, mc: &Mutation<'gc>, v: T) -> GcWeak<'gc, T> {
+        let g = Gc::new(mc, v);
+        self.weak.push(Gc::as_ptr(g) as usize);
+        Gc::downgrade(g)
+    }
 }
 
 pub fn needs<'gc, T: Collect<'gc> + ?Sized>(_: &T) -> bool {
